@@ -172,6 +172,11 @@ def _card43(card):
 def _geo_case(sh, n2p, pd, np, cs, i):
     r = core.rng(sh.seed, "C14", "geo", i)
     L = float(10 ** r.uniform(-1, 3.5))
+    if i % 4 == 3:
+        # the same geometry in a large length unit (a part some mm across described in
+        # km): rigid-body geometry is equivariant under a change of the unit of length
+        L = float(10 ** r.uniform(-4.5, -2))
+        sh.count("cell:geo-small-length-unit")
     cards = _gen_chain(r, cs, L)
     sy = cs.resolve(cards)
     cids = [c[0] for c in cards]
